@@ -3,11 +3,13 @@
 \* multi-action change with a later action refused).
 CONSTANTS
   Atomic = TRUE
+  DropDetached = TRUE
   Namespace = {1}
   M = 3
   MaxTs = 2
   Classes = {"ok", "needs", "badSig", "rejectFirst", "rejectLater"}
   MaxBad = 2
+  AllowDetached = FALSE
   Emit = TRUE
   EmitMod = 1
 INIT InitGraphs
